@@ -17,11 +17,11 @@ PENDING = "simulation designed (DESIGN.md section 4) but not built yet at this c
 
 CHECKS = {
  "C09": dict(cat="exploration", engine="des-tcp", ref="4 C09",
-   text="seeded deterministic simulation of TCP senders and a lossy/reordering/duplicating/re-segmenting network with flush timers and page limits in front of the real reassembly.Assembler; a reference delivery model (in order, exactly once, exact skips, kept bytes re-presented) is checked after every event. Sampling, not proof: the input space (streams, ISNs, segmentations, arrival orders) is unbounded.",
+   text="seeded deterministic simulation of TCP senders and a lossy/reordering/duplicating/re-segmenting network with flush timers and page limits in front of the real reassembly.Assembler; a reference delivery model (in order, exactly once, exact skips, kept bytes re-presented, age-based release judged by the harness's own arrival times) is checked after every event; a second unit feeds the packets through Assemble(), which reads the clock itself, inside a synctest bubble whose fake clock the harness advances. Sampling, not proof: the input space (streams, ISNs, segmentations, arrival orders) is unbounded.",
    note="trusted: the harness's sender/network model and delivery model (sim/tcpsim); senders retransmit consistent bytes; timestamps come from the simulated clock; hooks only order the flush visiting order",
    tech="deterministic discrete-event simulation with network fault injection; reference-model oracle; tape shrinking"),
  "C10": dict(cat="exploration", engine="des-tcp", ref="4 C10",
-   text="same simulation and delivery model as C09 against the real tcpassembly.Assembler (Reassembly.Skip/Bytes/Start/End), including sequence wrap, page limits and age-based flushes.",
+   text="same simulation and delivery model as C09 against the real tcpassembly.Assembler (Reassembly.Skip/Bytes/Start/End), including sequence wrap, page limits and age-based flushes; a second unit feeds through Assemble() on the simulated clock of a synctest bubble.",
    note="as C09",
    tech="deterministic discrete-event simulation with network fault injection; reference-model oracle; tape shrinking"),
  "C11": dict(cat="exploration", engine="des-tcp", ref="4 C11",
@@ -29,7 +29,7 @@ CHECKS = {
    note="trusted: harness model; pages in use and pool size are read through verif-tagged accessors; pages in use, queued and kept pages are read through verif-tagged accessors that walk the lists",
    tech="deterministic discrete-event simulation with fault injection; invariant audit after every event"),
  "C13": dict(cat="exploration", engine="des-defrag", ref="4 C13",
-   text="seeded deterministic simulation of fragmenting senders (headers 20-60 bytes, payloads up to the maximum 65535 minus header, cuts at multiples of 8), a reordering/duplicating/dropping network with key reuse, a hostile injector (conflicting overlaps, holes, undersized, beyond 65535, complete sets that are oversize only with their header, up to the maximum of 8190 fragments and beyond) and discard timers on a simulated clock in front of the real IPv4 defragmenter (and fragments in any order with duplicates in front of the IPv6 one, whose age-based discard is simulated inside a synctest bubble because it reads time.Now()); a per-key model of the received set decides at every call whether nothing, an error or exactly the original datagram must come back, every returned byte must have been placed at its offset by a received fragment, and a returned datagram is either a row of whole received fragments or contradicted by no received fragment (conflicting overlaps give an error or nothing).",
+   text="seeded deterministic simulation of fragmenting senders (headers 20-60 bytes, payloads up to the maximum 65535 minus header, cuts at multiples of 8), a reordering/duplicating/dropping network with key reuse, a hostile injector (conflicting overlaps, holes, undersized, beyond 65535, complete sets that are oversize only with their header, up to the maximum of 8190 fragments and beyond) and discard timers on a simulated clock in front of the real IPv4 defragmenter (through DefragIPv4WithTimestamp, and through DefragIPv4 on the fake clock of a synctest bubble; and fragments in any order with duplicates in front of the IPv6 one, whose age-based discard is simulated inside a synctest bubble because it reads time.Now()); a per-key model of the received set decides at every call whether nothing, an error or exactly the original datagram must come back, every returned byte must have been placed at its offset by a received fragment, and a returned datagram is either a row of whole received fragments or contradicted by no received fragment (conflicting overlaps give an error or nothing).",
    note="trusted: harness fragmenter and per-key model; fragments are built field by field with consistent Length; IPv6 behaviour after completion and the count returned by the IPv6 discard are not checked",
    tech="deterministic discrete-event simulation with network and hostile-input fault injection; reference-model oracle"),
  "C14": dict(cat="fault_enumeration", engine="sim-disk", ref="4 C14",
